@@ -232,10 +232,23 @@ def activations(r, tab, routines):
     return [(n, ch) for n, _, ch in done]
 
 
-def tie(res, exe_i, scens, broken):
+def lean_side(broken):
+    """everything that reads Gen/Ladders.lean or the driver binary, under the pipeline lock (other checks
+    regenerate Gen/ from their own VERIF_REPO concurrently): path sets for the tie, strict module"""
     from tools import laddergen as L
     routines = sorted({cfg["fn"] for cfg in L.ROUTINES})
-    paths, by_fn = model_paths(routines)
+    with C.Lock("pipeline"):
+        L.generate()
+        okd, outd = C.lake_build(["driver"])
+        if not okd:
+            raise RuntimeError("driver does not build: " + outd[-1500:])
+        paths, by_fn = model_paths(routines)
+        ok, out = C.lake_build(["ArgoVerif.Props.C18Strict"])
+        audit = C.audit("C18Strict") if ok else None
+    return routines, paths, ok, out, audit
+
+
+def tie(res, exe_i, scens, routines, paths):
     marked, indirect = classify_names()
     tab = symtab(exe_i)
     runs = enumerate_all(exe_i, scens, trace=True)
@@ -329,21 +342,21 @@ def run(res, tier, broken):
                 scenarios=len(scens), acquisitions_per_scenario=perscen, outcomes=dict(hist),
                 failed_primitive_kinds=dict(kinds), violations_found=len(bad))
     # sequence tie (model <-> code)
+    routines, paths, ok, out, audit = lean_side(broken)
     exe_i = build("finstr")
     tscens = quick if (tier == "quick" and not broken) else allsc
-    mism = tie(res, exe_i, tscens, broken)
+    mism = tie(res, exe_i, tscens, routines, paths)
     if mism:
         res.violation("T1+ sequence tie broken: callee sequence of %s in scenario %s k=%s is not an execution of the "
                       "generated program" % (mism[0]["routine"], mism[0]["scenario"], mism[0]["k"]),
                       {"correspondence": "harness/fi_scen.c trace vs driver ledger paths", "mismatches": mism[:10]},
                       no_input=not bad)
     # the strict statement (false on the unchanged tree: finding F8)
-    ok, out = C.lake_build(["ArgoVerif.Props.C18Strict"])
     f8 = [b for b in bad if b[0].startswith("pool_add_sched_userpool")]
     res.add_cov(strict_statement="discharged" if ok else "fails (ythread_create releases the caller's scheduler; see "
                 "pool_add_sched_userpool)")
     if ok:
-        names, axioms, problems = C.audit("C18Strict")
+        names, axioms, problems = audit
         if problems:
             res.violation("axiom audit of Props/C18Strict failed", {"problems": problems}, no_input=True)
         else:
@@ -351,8 +364,23 @@ def run(res, tier, broken):
     elif not f8:
         res.violation("Props/C18Strict no longer builds and the enumeration shows no failing call",
                       {"broken": [l for l in out.split("\n") if "error" in l][:5]}, no_input=True)
-    if broken and not bad:
-        res.notes.append("proof obligations broken but every enumerated single failure conforms: " + json.dumps(broken)[:800])
+    # broken proof obligations: tie them to the failing inputs found above, or say that none was found
+    for b in broken:
+        if b.get("kind") != "lean-build":
+            continue
+        fns = sorted({re.sub(r"^ledger_(fail_balanced|success_exact|handle_null_or_untouched|preexisting_untouched)_", "",
+                             t).replace("_partial", "") for t in b.get("theorems", []) if t and t.startswith("ledger_")})
+        hit = []
+        for sn, r, sym in bad:
+            stack = " ".join(symbolize(exe, r.get("failsite", [])))
+            rt = dict((s[0], s[2]) for s in allsc).get(sn)
+            if any(f == rt or (f + " (") in stack for f in fns):
+                hit.append("%s k=%d" % (sn, r.get("k", 0)))
+        res.add_cov(broken_obligations={"theorems": b.get("theorems"), "routines": fns, "failing_inputs": hit[:10]})
+        if not hit:
+            res.violation("theorems about the generated ladder of %s no longer hold and the exhaustive single-fault "
+                          "enumeration shows no observable failure for it" % ", ".join(fns),
+                          {"broken": [b], "routines": fns}, no_input=True)
 
 
 def replay(res, path):
